@@ -25,6 +25,9 @@ NAME_POOL = ['a', 'b', 'Z', '0', ' ', '%', '\n', '\r', '=', '[', ']', '+', '#', 
              'e\u0301', '\u212b', 'n\u0303', '\u0301']
 
 
+RULE += " Since round 8 half of the deep cases are spelt through a symbolic link that is an ancestor of the entry's directory."
+
+
 def gen_name(rng):
     r = rng.random()
     if r < 0.08:
@@ -166,7 +169,22 @@ def state_level(run, thorough):
         else:
             tree.append(['l', full, 'target-' + str(k)])
         spelling = rng.choice(['abs', 'rel', 'dotrel'])
-        if spelling == 'abs':
+        via = None
+        if where in ('home_deep', 'vol') and parent.count('/') >= 3 and rng.random() < 0.5 and '\n' not in parent:
+            # the argument is written through a symbolic link that is an ANCESTOR of the entry's directory (not the directory itself):
+            # the recorded location is the real one - the parent directory resolved - whichever way the argument was spelt
+            comps = parent.split('/')
+            cut = rng.randint(3, len(comps) - 1) if len(comps) > 3 else 3
+            real_anc, rest = '/'.join(comps[:cut]), '/'.join(comps[cut:])
+            if rest:
+                via = '/home/u/lk%d' % k
+                tree.append(['l', via, real_anc])
+                spelling = rng.choice(['abs', 'abs', 'vialinkrel'])
+        if via and spelling == 'abs':
+            cwd, arg = '/', via + '/' + rest + '/' + name
+        elif via:
+            cwd, arg = '/home/u', os.path.basename(via) + '/' + rest + '/' + name
+        elif spelling == 'abs':
             cwd, arg = '/', full
         elif spelling == 'rel':
             cwd, arg = parent, name
